@@ -1780,7 +1780,7 @@ class Interp(Engine):
             self.list_extend(s, args[0])
             return None
         if name == 'copy':
-            return lst_copy(s)
+            return _shallow_copy(s)
         if name == 'index' and s.items is not None and not _has_sym(args[0]) and all(not _has_sym(x) for x in s.items):
             try:
                 return s.items.index(args[0])
@@ -1942,7 +1942,7 @@ class Interp(Engine):
             if isinstance(v, DictV):
                 v = SeqV(items=list(v.d.keys()), kind='list')
             if isinstance(v, SeqV):
-                c = lst_copy(v)
+                c = _shallow_copy(v)
                 c.kind = name
                 c.term = None if v.items is not None else v.term
                 if name == 'tuple' and c.items is not None:
@@ -2086,6 +2086,15 @@ class _LambdaShim:
     def __init__(self, node):
         self.args = node.args
         self.name = '<lambda>'
+
+
+def _shallow_copy(s):
+    """a user-level shallow copy (list(x), x.copy()): the element objects are shared, so nested stores through either
+    container are no longer modelled (Undecided)"""
+    c = lst_copy(s)
+    c.shared_elems = True
+    s.shared_elems = True
+    return c
 
 
 def lst_copy(s):
